@@ -383,7 +383,7 @@ def part_spec(chk, C, T, runner, jobs):
             if nviol <= 3:
                 chk.violation({"kind": "property-fails-on-implementation", "part": "spec", "why": why, "job_json": j,
                                "argv": [bytes.fromhex(x).decode("latin-1") if x != "-" else "" for x in argv], "job_json_as_given": jtext,
-                               "file_names_spelled": "--file=" if named else "positional", "denotation_calls": calls[:1500],
+                               "file_names_spelled": "--file=" if named else "positional", "denotation_calls": calls,
                                "denotation_accepts": ok, "argv_outcome": C.short_out(ra), "json_outcome": C.short_out(rj),
                                "denotation_replayed_through_real_Config": C.short_out(rp)}, signature=C.enc40_signature(j, None))
         elif cls in ("ok", "config-usage"):
@@ -398,3 +398,33 @@ def part_spec(chk, C, T, runner, jobs):
     never = [t for t in list(TABLE_OF_KEY.values()) + ["encrypt-40bit", "encrypt-128bit", "encrypt-256bit"] if reached.get(t, {}).get("ok", 0) == 0]
     if never:
         raise common.InfraError("C19 spec: nested table never reached by an accepted job", str(never))
+
+
+def verdict(C, ok, ra, rj, rp):
+    """the comparison of part_spec for one case, as text (None: agrees)"""
+    a, b = C.parse_dump(ra), C.parse_dump(rj)
+    if not ok:
+        return None if a[0] == "usage" and b[0] == "usage" else "the denotation rejects the job; command line: %s, job JSON: %s" % (a[0], b[0])
+    p = C.parse_dump(rp)
+    if rp.startswith("ok "):
+        if a[0] != "ok" or C.dump_diff(a, p):
+            return "command line differs from the denotation's calls in %s" % (C.dump_diff(a, p)[:8] if a[0] == "ok" else a[0])
+        if b[0] != "ok" or C.dump_diff(b, p):
+            return "job JSON differs from the denotation's calls in %s" % (C.dump_diff(b, p)[:8] if b[0] == "ok" else b[0])
+        return None
+    if rp.startswith("usage "):
+        return None if (a[0] == "usage" and b[0] == "usage" and a[1] == p[1] == b[1]) else "not the usage error of the denotation's calls"
+    return None if (a[0] == "usage" and b[0] == "error") else "not the error of the denotation's calls"
+
+
+def replay_spec(C, chk, rep, runner):
+    d = C.new_rundir(runner.wd, runner.pool, "replay")
+    lines = ["cfgf_argv " + " ".join(hx(a) for a in rep["argv"]), "cfgf_json " + hexs(rep["job_json_as_given"]),
+             "cfgf_replay " + ("fin " if rep.get("denotation_accepts") else "front:0 ") + rep["denotation_calls"]]
+    ra, rj, rp = common.run_lines("env --chdir=%s %s" % (d, runner.drv), lines)
+    print("argv:  %s\n  -> %s" % (rep["argv"], C.short_out(ra)[:300]))
+    print("json:  %s\n  -> %s" % (rep["job_json_as_given"], C.short_out(rj)[:300]))
+    print("denotation (%s): %s\n  -> %s" % ("accepted" if rep.get("denotation_accepts") else "rejected", rep["denotation_calls"][:600], C.short_out(rp)[:300]))
+    why = verdict(C, bool(rep.get("denotation_accepts")), ra, rj, rp)
+    print("REPLAY: %s" % (("still fails: " + why) if why else "both front ends agree with the denotation now"))
+    return 1 if why else 0
